@@ -718,7 +718,31 @@ func walk(path string) map[string]any {
 	return map[string]any{"k": "untracked"}
 }
 
-// observe records the session and archive files, what Manager.List says, and both roots.
+// stableEmit takes an observation with read() and journals it only if no other journal record was written while
+// it was being taken (so that it is an observation AT its position in the journal); it retries a few times and
+// otherwise marks the record unstable (the trace module does not judge unstable observations).
+func (h *harness) stableEmit(read func() map[string]any) {
+	var rec map[string]any
+	for attempt := 0; attempt < 6; attempt++ {
+		h.mu.Lock()
+		e0 := h.events
+		h.mu.Unlock()
+		rec = read()
+		h.mu.Lock()
+		if h.events == e0 {
+			rec["stable"] = true
+			h.emitLocked(rec)
+			h.mu.Unlock()
+			return
+		}
+		h.mu.Unlock()
+		time.Sleep(time.Duration(attempt+1) * time.Millisecond)
+	}
+	rec["stable"] = false
+	h.emit(rec)
+}
+
+// observe records both roots, the session and archive files, and what Manager.List says.
 func (h *harness) observe() {
 	if h.restartInFlight() {
 		return
@@ -726,19 +750,24 @@ func (h *harness) observe() {
 	h.mu.Lock()
 	mgr, sid := h.mgr, h.session
 	h.mu.Unlock()
-	// roots first: a walker for real directories, the endpoints' trees otherwise
-	var ra, rb map[string]any
-	if h.real {
-		ra, rb = walk(h.rootDirs["alpha"]), walk(h.rootDirs["beta"])
-	} else {
-		h.mu.Lock()
-		ra, rb = vtree.Enc(h.trees["alpha"]), vtree.Enc(h.trees["beta"])
-		h.mu.Unlock()
-	}
-	h.emit(map[string]any{"ev": "Roots", "alpha": ra, "beta": rb})
+	// roots: a walker for real directories, the endpoints' trees otherwise
+	h.stableEmit(func() map[string]any {
+		var ra, rb map[string]any
+		if h.real {
+			ra, rb = walk(h.rootDirs["alpha"]), walk(h.rootDirs["beta"])
+		} else {
+			h.mu.Lock()
+			ra, rb = vtree.Enc(h.trees["alpha"]), vtree.Enc(h.trees["beta"])
+			h.mu.Unlock()
+		}
+		return map[string]any{"ev": "Roots", "alpha": ra, "beta": rb}
+	})
 	// files
-	disk := map[string]any{"ev": "Disk", "sessionFile": false, "paused": false, "archive": map[string]any{"k": "gone"}}
-	if sid != "" {
+	h.stableEmit(func() map[string]any {
+		disk := map[string]any{"ev": "Disk", "sessionFile": false, "paused": false, "archive": map[string]any{"k": "gone"}}
+		if sid == "" {
+			return disk
+		}
 		sp := filepath.Join(h.dataDir, "sessions", sid)
 		if _, err := os.Stat(sp); err == nil {
 			disk["sessionFile"] = true
@@ -756,11 +785,15 @@ func (h *harness) observe() {
 				disk["archive"] = map[string]any{"k": "undecodable"}
 			}
 		}
-	}
-	h.emit(disk)
+		return disk
+	})
 	// Manager.List
-	st := map[string]any{"ev": "State", "listed": false, "paused": false, "status": "none", "cycles": 0, "lastError": "", "listErr": ""}
-	if mgr != nil {
+	h.stableEmit(func() map[string]any {
+		st := map[string]any{"ev": "State", "listed": false, "paused": false, "status": "none", "cycles": 0, "lastError": "", "listErr": ""}
+		if mgr == nil {
+			st["listErr"] = "no manager"
+			return st
+		}
 		ctx, cancel := context.WithTimeout(context.Background(), 3*time.Second)
 		_, states, err := mgr.List(ctx, &selection.Selection{All: true}, 0)
 		cancel()
@@ -776,8 +809,8 @@ func (h *harness) observe() {
 				st["lastError"] = ascii(s.LastError)
 			}
 		}
-	}
-	h.emit(st)
+		return st
+	})
 }
 
 // ---------------------------------------------------------------- external edits
